@@ -296,6 +296,7 @@ DETS = [
     ({"s": {"f1|cidr": "10.1.2.0/23", "f2": "a"}, "t": {"f3|cidr": "10.1.2.3/32"}}, ["s", "not s", "s and t", "not t or s", "not (s or t)"]),
     ({"sa": {"f1": "a"}, "sb": {"f2": "b"}, "sc": {"f3": "c"}}, ["sa or sb and sc", "sa and sb or sc", "not sa or sb and not sc", "(sa or sb) and (sb or sc)", "not (sa and (sb or not sc))", "sa or (sb or sc)", "sa and (sb and sc)", "1 of s*", "all of s*"]),
     ({"n": {"f1|cidr": "10.1.2.0/23"}, "m": {"f2|cidr": "10.2.0.0/15"}, "k": ["kw"]}, ["not n", "n", "not n or m", "not (n or m)", "n and m", "not m and k", "k or not n"]),
+    ({"q": {"f1|neq": "a"}, "r": {"f2|neq": ["b", "c"]}, "s": {"f3|contains|neq": "d*"}}, ["q", "not q", "q and r", "r", "not r or s", "s", "q or not s"]),
 ]
 
 
